@@ -113,7 +113,8 @@ SAMTOOLS_FAILURES = ('merge-fail', 'merge-fail-half', 'merge-fail-subset', 'rehe
 
 def bounds(tier):
     return {'modes': ['single', 'multi'], 'methods': ['nla', 'chic'],
-            'kinds': ['exception', 'kill', 'interrupt (KeyboardInterrupt)', 'oserror (OSError ENOSPC, site level)', 'memoryerror (MemoryError, site level)'],
+            'kinds': ['exception', 'kill', 'interrupt (KeyboardInterrupt)', 'oserror (OSError ENOSPC, site level)', 'memoryerror (MemoryError, site level)',
+                      'silent (torn intermediate file: the unsorted output of writer k loses its last data block and EOF block before the header rewrite; nothing raised)'],
             'levels': ['site (wrapped operations incl. half-written sort / merge / index output, file-system calls, status writes)',
                        'line (before every executed line of bamtagmultiome.py, bamFunctions.py, tagging.py)'],
             'line_level': ('exception: first+last occurrence of every line; kill: one per distinct on-disk state; interrupt: one per distinct (state, stack); nla'
@@ -308,6 +309,8 @@ class Injector:
             except Exception:
                 pass
         self.note_fire()
+        if kind == 'silent':
+            return                        # the damage is done (inside_cb), nobody is told: the run goes on
         if kind == 'kill':
             os._exit(137)
         if kind == 'interrupt':
@@ -367,6 +370,22 @@ def _header_only(src, dst):
             header = i.header.to_dict()
         with pysam.AlignmentFile(dst, 'wb', header=header):
             pass
+    return cb
+
+
+def _drop_tail_blocks(path):
+    """the last data block and the EOF block of a BGZF file never reached the disk (a final flush that failed unreported, a full
+    disk): the file ends on a block boundary"""
+    def cb():
+        with open(path, 'rb') as f:
+            data = f.read()
+        offs, o = [], 0
+        while o + 18 <= len(data):
+            offs.append(o)
+            o += int.from_bytes(data[o + 16:o + 18], 'little') + 1
+        if len(offs) >= 3:
+            with open(path, 'wb') as f:
+                f.write(data[:offs[-2]])
     return cb
 
 
@@ -584,6 +603,15 @@ def child_main(inp_path, out_path, tmpdir, mode, method, plan, log_path, extra_a
                 mod.os = fs_os
         if hasattr(bf, 'move'):
             bf.move = inj.wrap('fs_move', bf.move)
+        if any(p[0] == 'torn_intermediate' for p in plan) and hasattr(bf, 'replace_bam_header'):
+            real_rbh = bf.replace_bam_header
+
+            def torn_rbh(origin_bam_path, *a, **k):
+                occ = inj.counts.get('torn_intermediate', 0)
+                inj.counts['torn_intermediate'] = occ + 1
+                inj.hit('torn_intermediate', 'inside', occ, _drop_tail_blocks(origin_bam_path))
+                return real_rbh(origin_bam_path, *a, **k)
+            bf.replace_bam_header = torn_rbh
         if hasattr(tg, 'remove'):
             tg.remove = inj.wrap('fs_remove', tg.remove)
 
@@ -1182,6 +1210,11 @@ def shards(tier):
                 for part in range(2):
                     out.append({'level': 'line', 'mode': mode, 'method': method, 'kind': 'exception', 'part': part, 'nparts': 2, 'prior': True,
                                 'config': 'plain'})
+    # a torn intermediate file: the unsorted output of the k-th writer lost its last data block and EOF block before the header rewrite
+    for mode in ('single', 'multi'):
+        for method in (('nla',) if tier == 'quick' else ('nla', 'chic')):
+            out.append({'level': 'torn', 'mode': mode, 'method': method, 'kind': 'silent', 'part': 0, 'nparts': 1, 'prior': False,
+                        'config': 'plain'})
     # a damaged input: reading block k fails (every data block), fresh and as a re-run over a finished output
     for mode in ('single', 'multi'):
         for method in ('nla', 'chic'):
@@ -1316,6 +1349,17 @@ def run_shard(shard, tier, acc):
             ok = info['exit'] == 0 and info['status'] is not None and (SUCCESS in info['status'] or (level == 'cluster' and CLUSTER_SUCCESS in info['status']))
             if not ok:
                 acc.violation(f'{level}:{method}:fault-free-run-did-not-report-success', case, info)
+        return
+    if level == 'torn':
+        for k in range(1 if mode == 'single' else 4):
+            plan = [('torn_intermediate', k, 'inside', 'silent')]
+            case = {'mode': mode, 'method': method, 'plan': [list(p) for p in plan], 'prior': prior, 'config': config}
+            viols, info = run_plan(mode, method, plan, prior=prior, config=config)
+            acc.case(case, transitions=1, nontrivial=True,
+                     outcome=f"{mode}:torn-intermediate-file:exit={info['exit']}:status={(info['status'] or 'none')[:12]}")
+            _count(acc, level, config, kind, prior, info)
+            for sig, dd in viols:
+                acc.violation(sig, case, dd)
         return
     if level == 'damaged':
         d = tempfile.mkdtemp(prefix='c20_', dir='/dev/shm')
